@@ -30,9 +30,11 @@ pub struct ConcSc;
 pub static CONC: ConcSc = ConcSc;
 
 /// class name -> (scenario, class) that supplies the calls
-fn inner_of(class: &str) -> Option<(&'static dyn Scenario, &'static str)> {
+fn inner_of(class: &str, index: u64) -> Option<(&'static dyn Scenario, &'static str)> {
     use crate::*;
     Some(match class {
+        // every other run: identity keys at drawn positions of otherwise correct aggregates
+        "conc-ident" if index % 2 == 1 => (&sc_ident::IDENT, "agg-positions"),
         "conc-sign" => (&sc_sign::SIGN, "retry-restart"),
         "conc-tamper" => (&sc_sign::SIGN, "tamper"),
         "conc-interop" => (&sc_sign::SIGN, "interop"),
@@ -89,7 +91,7 @@ impl Scenario for ConcSc {
         if plan.class == "conc-fresh" {
             return run_fresh(plan, env, rec);
         }
-        let Some((inner, inner_class)) = inner_of(&plan.class) else { return };
+        let Some((inner, inner_class)) = inner_of(&plan.class, plan.get("index") as u64) else { return };
         let tier = if plan.get("tier") == 1 { Tier::Thorough } else { Tier::Quick };
         // two sequential runs of the inner class (other seed, other index): two keys, often two schemes or groups, in one trace
         rec.trace = Some(vec![]);
@@ -106,8 +108,17 @@ impl Scenario for ConcSc {
         for (si, st) in plan.steps.iter().enumerate().filter(|(_, s)| s.k == "session") {
             let (n, per, sel, same) = (st.arg(0).clamp(2, 4) as usize, st.arg(1).clamp(1, 3) as usize, st.arg(2) as u64, st.arg(3) != 0);
             let mut x = Xo::new(sel);
-            let anchor = x.below(trace.len() as u64) as usize;
+            // the anchor call: any call of the trace, or (one time in three) a verification that was REFUSED when made alone —
+            // a refusal is what a shared "pending" slot, a verdict memo or a coalesced request most easily loses
+            let refused: Vec<usize> = (0..trace.len()).filter(|i| trace[*i].out.is_rej() && format!("{:?}", trace[*i].op).contains("Verify")).collect();
+            let anchor = if !refused.is_empty() && x.chance(1, 3) { refused[x.below(refused.len() as u64) as usize] } else { x.below(trace.len() as u64) as usize };
             let same_op: Vec<usize> = (0..trace.len()).filter(|i| trace[*i].op == trace[anchor].op && *i != anchor).collect();
+            // ... and among those, the calls that ask about the SAME material: they share most arguments with the anchor (the same
+            // key and message under another scheme label, the same list with another aggregate) — what a memo keyed by part of
+            // a request confuses
+            let shared = |i: usize| trace[i].args.iter().zip(trace[anchor].args.iter()).filter(|(a, b)| a.len() >= 16 && a == b).count();
+            let most = same_op.iter().map(|i| shared(*i)).filter(|k| *k < trace[anchor].args.len()).max().unwrap_or(0);
+            let related: Vec<usize> = if most == 0 { vec![] } else { same_op.iter().copied().filter(|i| shared(*i) == most && trace[*i].args != trace[anchor].args).collect() };
             let mut picks: Vec<Vec<usize>> = vec![];
             for t in 0..n {
                 let mut mine = vec![];
@@ -119,6 +130,8 @@ impl Scenario for ConcSc {
                         anchor
                     } else if same && c == 0 && (same_op.is_empty() || x.chance(1, 3)) {
                         anchor
+                    } else if same && c == 0 && !related.is_empty() && x.chance(1, 2) {
+                        related[x.below(related.len() as u64) as usize]
                     } else if same && c == 0 {
                         same_op[x.below(same_op.len() as u64) as usize]
                     } else {
@@ -230,11 +243,19 @@ impl Scenario for ConcSc {
             *rec.stats.probes.entry("lock-waits-turned-into-yields").or_insert(0) += run.lock_waits;
             *rec.stats.probes.entry("single-steps").or_insert(0) += run.single_steps;
             *rec.stats.probes.entry("caller-thread-events").or_insert(0) += run.events.iter().sum::<u64>();
+            *rec.stats.probes.entry("events-at-atomic-instructions-of-the-library").or_insert(0) += run.atomic_events + dry.atomic_events;
+            match kernel::atomics::state() {
+                "armed" => {}
+                "disassembler-unavailable" => rec.probe("atomic-instruction-seam-unavailable(no-objdump)"),
+                _ => rec.probe("atomic-instruction-seam-unavailable(address-check)"),
+            }
             rec.case(&[77, trace[anchor].op as u64, n as u64, per as u64, same as u64, run.switches.min(6)], run.switches > (n as u64 - 1));
-            // (b') for the first session of the run: a SYSTEMATIC sweep with one preemption — every event of every thread in
+            // (b') for the first session of the run, and for every session in which callers ask about the same material
+            // (the very same call, or a related one): a SYSTEMATIC sweep with one preemption — every event of every thread in
             // turn (strided so that a run stays below ~120 executions): the other threads run while the preempted one is parked
             // at that event. One preemption at every possible event is what finds most ordering bugs in practice.
-            if si == 0 {
+            let contended = picks.iter().skip(1).any(|m| m[0] == anchor || related.contains(&m[0]));
+            if si == 0 || contended {
                 let total: u64 = dry.events.iter().sum();
                 let stride = (total / 120).max(1);
                 let mut fired = 0u64;
